@@ -607,6 +607,7 @@ fn c10_enabled(ci: &CleanImage, idir: &ImageDir, m: &Image, good: usize, desc: V
         let top_term = m.iter().flat_map(|(_, b)| refcodec::parse_file(b).recs.into_iter().map(|(_, _, r)| r.max_term())).max().unwrap_or(0);
         g.term_hint = model.st.last.map(|l| l.0).unwrap_or(1).max(1).max(top_term + 1);
         let mut fail = None;
+        let mut timed_out = false;
         if tiny {
             st.rl().drain_cache_evictable();
             if st.read_all() != Outcome2::Ok(model.entries()) {
@@ -641,11 +642,15 @@ fn c10_enabled(ci: &CleanImage, idir: &ImageDir, m: &Image, good: usize, desc: V
         model = g.m.clone();
         if fail.is_none() {
             if let Err(e) = st.sync() {
-                fail = Some(format!("flush after recovery: {}", e));
+                if !e.starts_with("TIMEOUT") {
+                    fail = Some(format!("flush after recovery: {}", e));
+                } else {
+                    timed_out = true;
+                }
             }
         }
         st.close();
-        if fail.is_none() {
+        if fail.is_none() && !timed_out {
             match Store::open(&idir.dir, &cfg, 42) {
                 Ok(mut s2) => {
                     let ra = s2.read_all();
